@@ -18,6 +18,7 @@ MultRegionS(x, f) ==
          m  == IF CmpD(R, R2) <= 0 THEN R ELSE R2
      IN \/ (R # <<>> /\ CmpD(m \o Zeros(8), X) < 0)
         \/ CmpD(X, F \o Zeros(15)) >= 0
+        \/ (R = <<>> /\ (x.f > 0 \/ f.f > 0))              \* a true multiple with fractional operands: the float quotient may land just BELOW an integer, which the tolerance does not forgive
 RECURSIVE Touches(_, _)
 Touches(d, v) == \/ IsNum(v) /\ DHas(d, "multipleOf") /\ MultRegionS(v.num, d.multipleOf)
                  \/ v.k = "slice" /\ DHas(d, "items") /\ \E j \in 1..Len(v.e) : Touches(d.items, v.e[j])
